@@ -19,7 +19,7 @@
 (*   si/so = state token received/returned.  Harness handlers return fresh tokens 1,2,3...;       *)
 (*   the built-in handler returns 0 (NULL) on B and E and its argument on L.                      *)
 (* Rule kinds (DESIGN.md 3): S stated by the property, C as-built convention, X outside universe. *)
-EXTENDS Integers, Sequences, FiniteSets, TLC
+EXTENDS Integers, Sequences, FiniteSets, FiniteSetsExt, TLC
 
 CONSTANTS Configs,            \* set of configuration records (see MC_ConfParse for the fields)
           CapMod,             \* modulus of the capacity counters
@@ -44,8 +44,8 @@ vars_all == <<cfg, phase, regpos, content, closed, ctab, c_idx, c_cnt, cst, cs_i
 IsWs(c)      == c \in {32, 9, 10, 11, 12, 13}
 Lower(c)     == IF c >= 65 /\ c <= 90 THEN c + 32 ELSE c
 LowerSeq(s)  == [i \in 1 .. Len(s) |-> Lower(s[i])]
-SetMin(S)    == CHOOSE m \in S : \A k \in S : m <= k
-SetMax(S)    == CHOOSE m \in S : \A k \in S : m >= k
+SetMin(S)    == Min(S)          \* FiniteSetsExt (linear; a CHOOSE over S x S is quadratic and names of 1000 characters occur)
+SetMax(S)    == Max(S)
 NonWs(s)     == {i \in 1 .. Len(s) : ~IsWs(s[i])}
 Trim(s)      == IF NonWs(s) = {} THEN <<>> ELSE SubSeq(s, SetMin(NonWs(s)), SetMax(NonWs(s)))   \* S: surrounding whitespace removed
 RTrim(s)     == IF NonWs(s) = {} THEN <<>> ELSE SubSeq(s, 1, SetMax(NonWs(s)))
